@@ -214,4 +214,24 @@ theorem subPass_wf (hq : QSortPerm) {song : Song} {m : SAMap} {bm : Match} {subI
       have := hfr.lo
       omega
 
+theorem FreshInv.setTrack {song : Song} {subId : Int} (h : FreshInv song subId) {id : Nat} {x : List Event}
+    (hx : song.track? id = some x) (evs : List Event) : FreshInv (setTrack song id evs) subId := by
+  refine ⟨h.lo, h.hi, ?_⟩
+  intro p hp
+  rw [setTrack_tracks hx] at hp
+  obtain ⟨q, hq, rfl⟩ := List.mem_map.1 hp
+  split
+  · rename_i hqid
+    have := h.above q hq
+    rw [← beq_iff_eq.1 hqid]; exact this
+  · exact h.above q hq
+
+theorem findMatch_track {song : Song} {m : SAMap} {srcT srcStart : Nat} {mt : Match}
+    (h : findMatch song m srcT srcStart = .ok mt) : ∃ src, song.track? srcT = some src := by
+  cases hsrc : song.track? srcT with
+  | none =>
+    unfold findMatch at h; rw [hsrc] at h
+    simp [bind, Except.bind, throw, throwThe, MonadExceptOf.throw] at h
+  | some src => exact ⟨src, rfl⟩
+
 end Ctrmml.OptSteps
